@@ -122,21 +122,57 @@ func (e *Engine) oblige(st *State, name, kind string, where token.Pos, goal *Ter
 		e.Trivial[name]++
 		return
 	}
-	var key strings.Builder
-	key.WriteString(name)
-	fmt.Fprintf(&key, "|%d|", g.id)
-	for _, p := range st.pc {
-		fmt.Fprintf(&key, "%d,", p.id)
+	fn := ""
+	if e.TopFn != nil {
+		fn = e.TopFn.String()
 	}
-	if !e.oblSeen[key.String()] {
-		e.oblSeen[key.String()] = true
-		fn := ""
-		if e.TopFn != nil {
-			fn = e.TopFn.String()
+	// one VC per conjunct of the goal (also under a leading universal quantifier): the
+	// hypotheses stay the same, each query is smaller and far more stable across solvers
+	for _, part := range splitGoal(g) {
+		var key strings.Builder
+		key.WriteString(name)
+		fmt.Fprintf(&key, "|%d|", part.id)
+		for _, p := range st.pc {
+			fmt.Fprintf(&key, "%d,", p.id)
 		}
-		e.Obls = append(e.Obls, &Obligation{Name: name, Kind: kind, Where: e.pos(where), PC: append([]*Term{}, st.pc...), Goal: g, Func: fn})
+		if !e.oblSeen[key.String()] {
+			e.oblSeen[key.String()] = true
+			e.Obls = append(e.Obls, &Obligation{Name: name, Kind: kind, Where: e.pos(where), PC: append([]*Term{}, st.pc...), Goal: part, Func: fn})
+		}
 	}
 	st.assume(g)
+}
+
+// splitGoal splits a goal into its conjuncts, looking through one leading forall and the
+// consequent of an implication.
+func splitGoal(g *Term) []*Term {
+	switch g.Op {
+	case "and":
+		var out []*Term
+		for _, a := range g.Args {
+			out = append(out, splitGoal(a)...)
+		}
+		return out
+	case "forall":
+		body := g.Args[0]
+		var out []*Term
+		for _, p := range splitGoal(body) {
+			out = append(out, Forall(g.Bound, p))
+		}
+		if len(out) > 1 {
+			return out
+		}
+	case "=>":
+		parts := splitGoal(g.Args[1])
+		if len(parts) > 1 {
+			var out []*Term
+			for _, p := range parts {
+				out = append(out, Implies(g.Args[0], p))
+			}
+			return out
+		}
+	}
+	return []*Term{g}
 }
 
 // ---------------------------------------------------------------- main loop
@@ -730,6 +766,11 @@ func (e *Engine) doTypeAssert(st *State, fr *Frame, x *ssa.TypeAssert) Val {
 		// assumption: module interfaces never hold typed nil pointers
 		e.AssumedDep["no typed-nil pointer inside a module interface value"]++
 		e.fact(st, Implies(okT, Ne(data, IntC(0))))
+	}
+	if _, isPtr := x.AssertedType.Underlying().(*types.Pointer); isPtr && (data.Op == "select" || data.Op == "var") && !data.hasBV {
+		// a pointer read out of a pre-existing (or abstracted) interface value refers to an object
+		// that this execution did not allocate: unknown references are non-negative, fresh ones negative
+		e.fact(st, Implies(okT, Le(IntC(0), data)))
 	}
 	if x.CommaOk {
 		var val Val
